@@ -2,13 +2,14 @@
 import copy, json
 from vlib import common as C
 from vlib.diff import Case, differential
-from ._jwire import to_wire, from_wire, jeq, F64, Pairs
+from ._jwire import to_wire, from_wire, jeq, F64, Pairs, hx
+from . import _binn as B
 from . import _rfc as R
 from . import _jgen as G
 
 LEVEL = "proof"
 # C functions this check's models mirror (source-text fingerprints are recorded in the evidence, see translate/funchash.py)
-MODELLED_FUNCS = {'src/json/iwjson.c': ['_jbl_create_patch', '_jbl_target_apply_patch', '_jbl_node_find', '_jbn_remove_item', '_jbl_patch_node', '_jbl_patch', '_jbl_ptr_array_index']}
+MODELLED_FUNCS = {'src/json/iwjson.c': ['_jbl_create_patch', '_jbl_target_apply_patch', '_jbl_node_find', '_jbn_remove_item', '_jbl_patch_node', '_jbl_patch', '_jbl_ptr_array_index', 'jbl_patch', 'jbl_patch_from_json', '_jbl_node_from_binn', '_jbl_from_node_impl']}
 MANIFEST = dict(
     level="proof",
     text=("Lean 4 theorems over an executable model of iowow's JSON Patch (pointer decoding, look-up by cached array index, "
@@ -17,12 +18,23 @@ MANIFEST = dict(
           "member names and every sequence of add/remove/replace/move/copy/test, RFC 6902 accepts => the model returns exactly "
           "the RFC result, RFC 6902 rejects => the model reports an error (hypotheses exclude only the two listed dialect "
           "findings: path '/', '-' outside insertions); the sorted member comparison behind test = RFC JSON equality; a failed "
-          "patch leaves the binary document unchanged for every patch document; the model is tied to the code by a "
+          "patch leaves the binary document unchanged for every patch document; the binary entry points are also modelled on "
+          "the binn BYTES as the composition C14 reader -> tree patch -> C14 writer -> swap (jbl_bytes_*): for every holder "
+          "whose bytes decode to a well-formed document and every RFC 6902 program, success => the new bytes decode to exactly "
+          "the RFC result of the decoded old bytes and are well-formed again (so the statement iterates over a list of patch "
+          "documents: jbl_bytes_rfc_seq_partial), a result the binary form cannot hold (key > 255 bytes, keys equal ignoring "
+          "ASCII case) => JBL_ERROR_CREATION, any error on any holder => bytes unchanged; the model is tied to the code by a "
           "differential run of jbn_patch / jbn_patch_auto / jbl_patch / jbl_patch_from_json against the compiled Lean "
-          "definitions on generated documents x patch programs, with an independent python RFC 6902 implementation as oracle"),
+          "definitions on generated documents x patch programs - for the binary entry points also byte for byte (binn bytes "
+          "in, the holder's buffer out, single calls and sequences of calls on one holder) - with an independent python RFC "
+          "6902 implementation and an independent python binn decoder as oracle"),
     note=("trusted: Lean kernel, harness/generator, python oracle, gcc+ASan/UBSan; modelled not verified: the C control flow of "
           "the functions named; doubles compared by bit pattern (the code compares printed texts); documents have unique keys "
-          "(ignoring ASCII case), no NUL bytes; binn encode/decode is taken as the identity on such documents (C14)"),
+          "(ignoring ASCII case), no NUL bytes (results that violate the key conditions are covered by the byte-level theorems "
+          "and stream: refused, bytes unchanged); hypotheses of the byte-level theorems: integers fit int64 and strings/keys are "
+          "NUL free (leafOk: what the C types give), the encoded result is shorter than 2^31-9 bytes, the result is an object or "
+          "array; a holder whose root was replaced by a scalar is compared as a value, not as bytes; the JSON text of the patch "
+          "(printer/parser) is C13's"),
     technique="Lean 4 proof over executable model + differential correspondence (C harness vs compiled Lean driver) + python RFC 6902 oracle")
 MODULE = "IwModel.Props.C15"
 THEOREMS = ["IwModel.C15.parsed_wf", "IwModel.C15.klidx_inv", "IwModel.C15.klidx_inv_run", "IwModel.C15.klidx_inv_patch",
@@ -31,6 +43,9 @@ THEOREMS = ["IwModel.C15.parsed_wf", "IwModel.C15.klidx_inv", "IwModel.C15.klidx
             "IwModel.C15.binary_rfc_partial", "IwModel.C15.apply_rfc_err_partial", "IwModel.C15.binary_err_partial", "IwModel.C15.pointer_text_roundtrip", "IwModel.C15.patch_document_decoded", "IwModel.C15.jbl_patch_rfc_partial",
             "IwModel.C15.ext_increment", "IwModel.C15.ext_add_create_existing", "IwModel.C15.ext_add_create", "IwModel.C15.ext_swap",
             "IwModel.C15.binn_atomic", "IwModel.C15.binary_error_reported",
+            "IwModel.C15.bytes_holder", "IwModel.C15.jbl_bytes_from_json", "IwModel.C15.jbl_bytes_atomic", "IwModel.C15.jbl_bytes_compose", "IwModel.C15.jbl_bytes_patch",
+            "IwModel.C15.rfc_result_leafOk", "IwModel.C15.jbl_bytes_rfc_partial", "IwModel.C15.jbl_bytes_rfc_seq_partial",
+            "IwModel.C15.holds_bytesB", "IwModel.C15.progBB_ok",
             "IwModel.C15.missing_target_reported", "IwModel.C15.slash_root_witness", "IwModel.C15.dash_last_witness"]
 
 UNSPEC = {"addcreate-unspecified", "swap-overlap", "swap-unspecified", "increment-overflow", "remove-root", "malformed-op", "unknown-op"}
@@ -219,8 +234,148 @@ def case_malformed(r):
     return c
 
 
+# ---- byte-level stream: the document goes in as binn BYTES and the holder's bytes come out (bpatch / bseq) ----
+
+def parse_bout(line):
+    """`<rc>[,<rc>...] <hex>` or `<rc>... scalar <wire>` -> (rcs, bytes | None, scalar value | None)"""
+    w = line.split()
+    rcs = w[0].split(",")
+    if len(w) >= 3 and w[1] == "scalar":
+        return rcs, None, from_wire(w[2:])
+    if len(w) != 2:
+        raise ValueError("unexpected answer " + line[:80])
+    return rcs, bytes.fromhex("" if w[1] == "-" else w[1]), None
+
+
+def make_byte_oracle(doc, inbytes, progs):
+    """RFC 6902 on decode(input bytes), program by program: an accepted program whose result the binary form can hold
+    must succeed and the bytes that come out must decode to the RFC result; one it cannot hold (key > 255 bytes, keys
+    equal ignoring ASCII case) must be refused with `creation`; a rejected program must report an error; whenever no
+    call succeeded the bytes must be exactly the bytes that went in."""
+    def oracle(out):
+        try:
+            rcs, got, scalar = parse_bout(out[0])
+        except ValueError as e:
+            return "[cls=bad-answer] %s" % e
+        if len(rcs) != len(progs):
+            return "[cls=bad-answer] %d return codes for %d patch documents" % (len(rcs), len(progs))
+        cur, changed = doc, False
+        for i, (ops, rc) in enumerate(zip(progs, rcs)):
+            if not isinstance(cur, (dict, list)):
+                return None                      # a scalar holder is outside the API's contract: nothing more to say
+            okk, exp, err = R.apply_patch(cur, ops)
+            if err and err[1] in UNSPEC:
+                return None
+            if okk:
+                if B.fits(exp):
+                    if rc != "ok":
+                        return "[cls=rejected] call %d: applicable patch was rejected with %s; RFC 6902 result %s" % (i, rc, json.dumps(exp, default=repr)[:200])
+                    cur, changed = exp, True
+                else:
+                    if rc == "ok":
+                        return "[cls=accepted-unholdable] call %d reported success but the binary form cannot hold %s" % (i, json.dumps(exp, default=repr)[:200])
+            else:
+                if rc == "ok":
+                    return "[cls=accepted-%s] call %d: operation %d (%s) must fail (%s) but the call reported success" % (
+                        err[1], i, err[0], json.dumps(ops[err[0]], default=repr)[:120], err[1])
+        if not changed:
+            if got != inbytes:
+                return "[cls=failed-patch-changed-bytes] no call succeeded (%s) but the holder's bytes changed: %s -> %s" % (
+                    ",".join(rcs), inbytes.hex()[:120], "scalar" if got is None else got.hex()[:120])
+            return None
+        if not isinstance(cur, (dict, list)):
+            return None if got is None and jeq(scalar, cur) else "[cls=wrong-result] holder %r, RFC 6902 prescribes the scalar %r" % (scalar if got is None else got.hex()[:80], cur)
+        if got is None:
+            return "[cls=wrong-result] holder is the scalar %r, RFC 6902 prescribes %s" % (scalar, json.dumps(cur, default=repr)[:200])
+        try:
+            val = B.dec(got)
+        except (B.BadBinn, IndexError, ValueError) as e:
+            return "[cls=bytes-malformed] the bytes that came out are not a well-formed document (%s): %s" % (e, got.hex()[:160])
+        if not jeq(val, cur):
+            return "[cls=wrong-result] the bytes decode to %s, RFC 6902 prescribes %s" % (json.dumps(val, default=repr)[:200], json.dumps(cur, default=repr)[:200])
+        return None
+    return oracle
+
+
+def byte_case(kind, r, mode, doc, progs):
+    inb = B.enc(doc, r if r.random() < 0.3 else None)       # sometimes wider integer / length fields than the writer's
+    if len(progs) == 1:
+        ln = "bpatch %s %s | %s" % (mode, hx(inb), to_wire(progs[0]))
+    else:
+        ln = "bseq %s %s | %s" % (mode, hx(inb), " | ".join(to_wire(p) for p in progs))
+    c = PCase(kind, [ln], make_byte_oracle(doc, inb, progs))
+    c.meta = ("b" + mode, doc, [o for p in progs for o in p])
+    return c
+
+
+def case_bytes(r):
+    mode = r.choice(["jbl", "json"])
+    doc = G.gen_doc(r, depth=r.choice([2, 3, 3, 4]), container=True)
+    ops, fail_at = G.gen_patch(r, doc, r.choice([1, 1, 2, 2, 3, 4, 5, 6, 8]), ext=r.random() < 0.25, fail_rate=0.12)
+    return byte_case("bytes" + ("-fail" if fail_at is not None else "-ok"), r, mode, doc, [ops])
+
+
+def case_bytes_seq(r):
+    """several patch documents applied to one holder one after the other; about a third of them fail"""
+    mode = r.choice(["jbl", "json"])
+    doc = G.gen_doc(r, depth=r.choice([2, 3]), container=True)
+    cur, progs = doc, []
+    for _ in range(r.randrange(2, 6)):
+        if not isinstance(cur, (dict, list)):
+            break
+        ops, _ = G.gen_patch(r, cur, r.choice([1, 1, 2, 3, 4]), ext=False, fail_rate=r.choice([0.0, 0.0, 0.4]), allow_root=False)
+        progs.append(ops)
+        okk, exp, err = R.apply_patch(cur, ops)
+        if okk and B.fits(exp):
+            cur = exp
+    if len(progs) < 2:
+        progs = progs + [[{"op": "test", "path": "", "value": copy.deepcopy(cur)}]]
+    return byte_case("bytes-seq", r, mode, doc, progs)
+
+
+def case_bytes_nofit(r):
+    """results the binary form cannot hold (a key over 255 bytes; two keys of one object equal ignoring ASCII case):
+    RFC 6902 accepts, the writer refuses at the very end - the bytes must stay; and the look-alikes it can hold"""
+    mode = r.choice(["jbl", "json"])
+    doc = G.gen_doc(r, depth=r.choice([2, 3]), container=True)
+    if not isinstance(doc, dict) or not doc or r.random() < 0.3:
+        doc = {"a": doc, "foo": {"ab": 1, "q": [1, {"x": 2}]}, "é": 0}
+    objs = [p for p in G.container_paths(doc) if isinstance(R.resolve(doc, list(p)), dict) and R.resolve(doc, list(p))]
+    p = r.choice(objs)
+    o = R.resolve(doc, list(p))
+    k = r.choice(list(o))
+    twin = r.choice([k.upper(), k.upper(), k.capitalize(), k + "X"])       # "É" is not an ASCII-case twin of "é": it fits
+    ops = []
+    c = r.randrange(8)
+    if c == 0:
+        ops.append({"op": "add", "path": G.ptr(p + (twin,)), "value": G.scalar(r)})
+    elif c == 1:
+        ops.append({"op": "copy", "from": G.ptr(p + (k,)), "path": G.ptr(p + (twin,))})
+    elif c == 2:
+        ops.append({"op": "add", "path": G.ptr(p + ("zz",)), "value": {"kk": 1, r.choice(["KK", "Kk", "kK", "kk2"]): [2]}})
+    elif c == 3:
+        ops.append({"op": "add", "path": G.ptr(p + ("L" * r.choice([254, 255, 256, 257, 300]),)), "value": 1})
+    elif c == 4:
+        ops.append({"op": "replace", "path": G.ptr(p + (k,)), "value": {"w" * r.choice([255, 256]): None}})
+    elif c == 5:      # the offending member is gone again before the document is encoded: must succeed
+        ops.append({"op": "add", "path": G.ptr(p + (twin,)), "value": 7})
+        if r.random() < 0.7:
+            ops.append({"op": "remove", "path": G.ptr(p + (twin,))})
+        else:
+            ops.append({"op": "test", "path": G.ptr(p + (twin,)), "value": 7})
+    elif c == 6:
+        ops.append({"op": "move", "from": G.ptr(p + (k,)), "path": G.ptr(p + (twin,))})      # the twin replaces k: holdable
+    else:
+        ops.append({"op": "add", "path": G.ptr(p + (twin,)), "value": 1})
+        ops.append({"op": "remove", "path": G.ptr(p + (k,))})                                 # only the twin is left: holdable
+    if r.random() < 0.3:
+        more, _ = G.gen_patch(r, doc, r.choice([1, 2]), ext=False, fail_rate=0.0, allow_root=False)
+        ops = more + ops
+    return byte_case("bytes-nofit", r, mode, doc, [ops])
+
+
 GENS = [(lambda r: case_patch(r, False, "rfc"), 6), (lambda r: case_patch(r, True, "ext"), 3), (case_same_array, 3),
-        (case_dialect, 0.15), (case_malformed, 1.2)]
+        (case_dialect, 0.15), (case_malformed, 1.2), (case_bytes, 2.5), (case_bytes_seq, 0.8), (case_bytes_nofit, 0.5)]
 
 
 def gen_cases(r, n):
@@ -265,7 +420,10 @@ def tally(ctx, cases):
                             if p == "":
                                 ctx.hist("ptr:root")
         if c.impl:
-            ctx.hist("rc:" + c.impl[0].split()[0])
+            for rc in c.impl[0].split()[0].split(",")[:8]:
+                ctx.hist("rc:" + rc)
+            if c.kind.startswith("bytes"):
+                ctx.hist("bytes-out:" + ("scalar" if " scalar " in c.impl[0] else "unchanged" if c.impl[0].split()[-1] == c.ops[0].split()[2] else "new"))
 
 
 CHUNK = 1000
@@ -317,12 +475,17 @@ def run(ctx):
                        "produced (same array several times, `-`, escaped segments, overlapping from/path), with at most one "
                        "deliberately failing operation (missing target, failed test, index past the end, move into own child); "
                        "separate streams: several operations on one array, the three extensions, known dialect differences, "
-                       "malformed patch documents (model comparison only); distinct = distinct op line; every case applies at least one operation")
+                       "malformed patch documents (model comparison only); byte-level streams: the document is handed over as binn bytes "
+                       "(python encoder, sometimes with wider integer/length fields than the writer's) and the holder's buffer is compared "
+                       "byte for byte with the composed Lean model - single calls, 2-5 calls on one holder, and programs whose result the "
+                       "binary form cannot hold (key of 255/256+ bytes, keys equal ignoring ASCII case, also removed again before the end); "
+                       "distinct = distinct op line; every case applies at least one operation")
     ctx.assumptions += ["documents have unique member names (also ignoring ASCII case) and no NUL bytes in keys/strings (what the binary form can hold, C14)",
                         "doubles in documents are not integer-valued and are compared by bit pattern in model and oracle (the code compares their printed texts)",
                         "`increment` never overflows int64 (signed overflow in the C code is undefined behaviour; UBSan would report it)",
                         "`swap` whose from and path overlap, or whose from is the whole document, is not generated (the one-line description of the extension does not determine a result)",
-                        "a binary document whose root was replaced by a scalar is only observed by its type (jbl holders are containers by construction)"]
+                        "a binary document whose root was replaced by a scalar is only observed by its type (patch mode) or as a value (byte-level ops); jbl holders are containers by construction",
+                        "byte-level ops: input buffers are well-formed documents (malformed buffers are C17's); the oracle decodes the output with its own binn reader and compares values, bytes are compared with the Lean model only"]
     selftest_note(ctx)
     ctx.translate()
     ok, drv_ok = ctx.prove(MODULE, THEOREMS)
